@@ -9,9 +9,9 @@ ASSUMPTIONS = ["'bounded' is observed as 3 s (6 s before a hang is declared)"]
 FILES = ["root/fake_test.go", "root/c16_test.go", "root/c07_test.go", "root/peers_test.go", "root/c18_test.go", "root/c06_test.go", "root/session_test.go", "root/c01_test.go", "root/c14_test.go", "root/c11_test.go", "root/c10_test.go"]
 
 
-def run(ctx):
+def run(ctx, test="^TestVerifC10$", name="C10", files=None):
     import props.C17 as c17
-    extra, labels = c02.instrumented(ctx, rels=("client.go", "server.go", "credentials/tls.go"))
+    extra, labels = c02.instrumented(ctx, rels=("client.go", "server.go", "credentials/tls.go", "internal/transport/websocket_client.go"))
     import re
     # c11_test.go's linked constructor is used by the server rewrite
     src = open(extra["server.go"]).read().replace("vNewServerTransport(", "vNewServerTransportLinked(")
@@ -19,10 +19,10 @@ def run(ctx):
     c = open(extra["client.go"]).read()
     c = re.sub(r"\btime\.NewTimer\(", "vNewTimer(", c) + "\nvar _ = time.Now\n"
     open(extra["client.go"], "w").write(c)
-    rc, out, recs = c17.go_scaled(ctx, "", "^TestVerifC10$", FILES, "wsrpc", None, extra, 1500 if ctx.thorough else 500)
+    rc, out, recs = c17.go_scaled(ctx, "", test, files or FILES, "wsrpc", None, extra, 1500 if ctx.thorough else 500)
     ctx.records += recs
     if rc != 0 or not recs:
-        ctx.fail("harness:C10", "the C10 harness did not run to completion on this tree: " + out[-1500:], kind="correspondence", no_input=True)
+        ctx.fail("harness:" + name, "the " + name + " harness did not run to completion on this tree: " + out[-1500:], kind="correspondence", no_input=True)
         return
     for r in recs:
         if r.get("fail"):
